@@ -128,6 +128,18 @@ func (ex *Exec) callStatic(st *PState, fn *ssa.Function, args []Value, bindings 
 		}
 		return ex.callStatic(st, tf, args, nil)
 	}
+	if ex.isSummarised(fn, full) {
+		// summaries work on concrete alternatives: split guarded-choice arguments first
+		for i, a := range args {
+			if ch, ok := a.(*ChoiceV); ok {
+				return ex.callUnderAlts(st, ch, func(sub *PState, v Value) Value {
+					a2 := append([]Value{}, args...)
+					a2[i] = v
+					return ex.callStatic(sub, fn, a2, bindings)
+				})
+			}
+		}
+	}
 	if v, ok := ex.stdStub(st, fn, full, args); ok {
 		return v
 	}
@@ -282,6 +294,18 @@ func (ex *Exec) verifIntrinsic(st *PState, fn *ssa.Function, base string, args [
 		ii, _ := basicIntInfo(rt)
 		d := ts.DeclareUF(fmt.Sprintf("%s/%d", name, n), sorts, SInt, ii.lo, ii.hi)
 		return ts.App(d, targs...), true
+	case "verifUFAny":
+		// verifUFAny[T](name string, args ...any) T: every leaf of the result is an uninterpreted
+		// function of all leaves of the arguments
+		name := constString(args[0])
+		sl := args[1].(*SliceV)
+		n := ex.constIntArg(sl.Len)
+		var targs []*Term
+		for i := int64(0); i < n; i++ {
+			ex.flattenLeaves(st, ex.sliceElem(st, sl, ts.Int64(i)), &targs)
+		}
+		rt := fn.Signature.Results().At(0).Type()
+		return ex.ufValue(name, rt, targs), true
 	case "verifUFBool":
 		name := constString(args[0])
 		sl := args[1].(*SliceV)
@@ -386,4 +410,118 @@ func (ex *Exec) tighten(c *Term) {
 	case "=":
 		// var = const is left to the solver
 	}
+}
+
+
+func (ex *Exec) flattenLeaves(st *PState, v Value, out *[]*Term) {
+	switch x := v.(type) {
+	case *Term:
+		if x.sort == SBool {
+			*out = append(*out, ex.ts.Ite(x, ex.ts.Int64(1), ex.ts.Int64(0)))
+		} else if x.sort == SInt {
+			*out = append(*out, x)
+		} else {
+			fail("verifUFAny: real-valued argument")
+		}
+	case *StructV:
+		for _, f := range x.F {
+			ex.flattenLeaves(st, f, out)
+		}
+	case *ArrayV:
+		for _, f := range x.E {
+			ex.flattenLeaves(st, f, out)
+		}
+	case *IfaceV:
+		if x.T != nil {
+			ex.flattenLeaves(st, x.V, out)
+		}
+	case *PtrV:
+		if x.Obj != nil {
+			ex.flattenLeaves(st, ex.load(st, x), out)
+		}
+	case *SliceV:
+		n, ok := x.Len.constInt()
+		if !ok {
+			fail("verifUFAny: slice argument of symbolic length")
+		}
+		for i := int64(0); i < n.Int64(); i++ {
+			ex.flattenLeaves(st, ex.sliceElem(st, x, ex.ts.Int64(i)), out)
+		}
+	default:
+		fail("verifUFAny: unsupported argument %T", v)
+	}
+}
+
+func (ex *Exec) ufValue(name string, t types.Type, args []*Term) Value {
+	ts := ex.ts
+	mk := func(leaf string, lo, hi *big.Int, s Sort) *Term {
+		sorts := make([]Sort, len(args))
+		for i := range sorts {
+			sorts[i] = SInt
+		}
+		d := ts.DeclareUF(fmt.Sprintf("%s%s/%d", name, leaf, len(args)), sorts, s, lo, hi)
+		return ts.App(d, args...)
+	}
+	var build func(path string, t types.Type) Value
+	build = func(path string, t types.Type) Value {
+		if _, ok := ex.abstractSort(t); ok {
+			if ex.absKind(t) == "felt" {
+				q := ex.feltModulus(t)
+				return mk(path, bigZero, new(big.Int).Sub(q, bigOne), SInt)
+			}
+			if ex.absKind(t) == "int" {
+				return mk(path, nil, nil, SInt)
+			}
+			fail("verifUFAny: result of abstract real type")
+		}
+		switch u := t.Underlying().(type) {
+		case *types.Basic:
+			if isBool(t) {
+				return mk(path, nil, nil, SBool)
+			}
+			if ii, ok := basicIntInfo(t); ok {
+				return mk(path, ii.lo, ii.hi, SInt)
+			}
+		case *types.Struct:
+			s := &StructV{F: make([]Value, u.NumFields())}
+			for i := range s.F {
+				s.F[i] = build(path+"."+u.Field(i).Name(), u.Field(i).Type())
+			}
+			return s
+		case *types.Array:
+			a := &ArrayV{E: make([]Value, u.Len())}
+			for i := range a.E {
+				a.E[i] = build(fmt.Sprintf("%s[%d]", path, i), u.Elem())
+			}
+			return a
+		}
+		fail("verifUFAny: unsupported result type %s", t)
+		return nil
+	}
+	return build("", t)
+}
+
+
+// isSummarised reports whether a call is handled by a summary (stub or abstract-type method)
+// rather than by inlining the callee's SSA.
+func (ex *Exec) isSummarised(fn *ssa.Function, full string) bool {
+	if _, ok := ex.recvAbstract(fn); ok {
+		return true
+	}
+	if fn.Pkg != nil {
+		switch fn.Pkg.Pkg.Path() {
+		case "bytes", "math/bits", "sync/atomic":
+			return true
+		}
+	}
+	if fn.Signature.Recv() != nil {
+		rt := fn.Signature.Recv().Type()
+		if p, ok := rt.(*types.Pointer); ok {
+			rt = p.Elem()
+		}
+		if n, ok := types.Unalias(rt).(*types.Named); ok && (n.Obj().Name() == "bigEndian" || n.Obj().Name() == "littleEndian") {
+			return true
+		}
+	}
+	return false
 }
